@@ -1,15 +1,29 @@
-//! C13 replayer: TLC-generated expression cases -> real parser (and, for the typed universe, real compiler + minilua).
+//! C13 replayer: TLC-generated expression cases -> real parser (and, for the typed universes, real compiler + minilua).
 //!   c13 replay <cases.ndjson> <results.ndjson>
-//! Each case: {u, t (expected tree), min (tokens), full (tokens), val}. Result: {i, checks:[{what, ok, got}]}.
+//!   c13 probe <file.sy>          (development aid: dump the tree, compile, run)
+//! Each case: {u, t (expected tree), min (tokens), full (tokens), val} and, for the universes that place the expression
+//! somewhere else than on the right of a top-level definition, the text AROUND it - all of it written by the specification:
+//!   wl, wr   tokens before / after the expression (default `q ::` / nothing); "\n" tokens are line breaks
+//!   path     where the expression must be found in the dumped first statement (default ["e"]); digits index arrays
+//!   whole    also require that the whole dumped module is the same for the min and the full text
+//!   ev       compile and run (default: u == "typed"); epre / epost are the tokens of the program around the expression
+//!            (default `start :: fn do print(` / `) end`); val = {k:int|bool|assert_failed, v} or {k:"show", s: printed text}
+//! Result: {i, checks:[{what, ok, got}]}.  Rust only builds the text from the tokens, runs sylt and records.
 //! C13_STUB=flip: negative control, swaps the operands of every '-' node in the dumped tree.
+//! C13_STUB=comment: negative control for the run checks, a generator that writes a negation without a separating
+//!                   space in front of a negative literal (the emitted Lua gets `--`, a comment).
 
 use serde_json::{json, Value};
 use std::path::Path;
 use vharness::astdump;
 use vharness::util::*;
 
+fn toks_of(v: &Value) -> Vec<String> {
+    v.as_array().map(|a| a.iter().map(|t| t.as_str().unwrap().to_string()).collect()).unwrap_or_default()
+}
+
 fn text_of(toks: &Value) -> String {
-    toks.as_array().unwrap().iter().map(|t| t.as_str().unwrap()).collect::<Vec<_>>().join(" ")
+    toks_of(toks).join(" ")
 }
 
 fn flip(v: &mut Value) {
@@ -30,34 +44,89 @@ fn flip(v: &mut Value) {
     }
 }
 
-fn parse_expr(text: &str) -> Result<Value, String> {
-    let src = format!("q :: {}\n", text);
-    match astdump::parse_module(&src) {
-        Ok(stmts) => {
-            if stmts.len() != 1 {
-                return Err(format!("expected one statement, got {}", stmts.len()));
+/// Recording conventions for what TLA+ cannot write: absent things (JSON null) are left out, a float literal's value is
+/// its Lua text, the blob literal's `name` (a number astdump derives from spans) is dropped.
+fn norm(v: &mut Value) {
+    match v {
+        Value::Object(m) => {
+            let kind = m.get("k").and_then(|k| k.as_str()).map(|s| s.to_string());
+            let nulls: Vec<String> = m.iter().filter(|(_, x)| x.is_null()).map(|(k, _)| k.clone()).collect();
+            for k in nulls {
+                m.remove(&k);
             }
-            let mut e = stmts[0]["e"].clone();
-            if std::env::var("C13_STUB").ok().as_deref() == Some("flip") {
-                flip(&mut e);
+            match kind.as_deref() {
+                Some("blob") => {
+                    m.remove("name");
+                }
+                Some("float") => {
+                    if let Some(f) = m.get("v").and_then(|x| x.as_f64()) {
+                        m.insert("v".into(), Value::String(lua_float_text(f)));
+                    }
+                }
+                _ => {}
             }
-            Ok(e)
+            for (_, x) in m.iter_mut() {
+                norm(x);
+            }
+        }
+        Value::Array(a) => a.iter_mut().for_each(norm),
+        _ => {}
+    }
+}
+
+fn parse_module(src: &str) -> Result<Vec<Value>, String> {
+    match astdump::parse_module(src) {
+        Ok(mut stmts) => {
+            for s in stmts.iter_mut() {
+                norm(s);
+                if std::env::var("C13_STUB").ok().as_deref() == Some("flip") {
+                    flip(s);
+                }
+            }
+            Ok(stmts)
         }
         Err(errs) => Err(format!("parse error: {}", errs.first().map(|e| e.message.clone()).unwrap_or_default())),
     }
 }
 
+fn walk<'a>(mut v: &'a Value, path: &[String]) -> Option<&'a Value> {
+    for p in path {
+        v = match p.parse::<usize>() {
+            Ok(i) => v.as_array()?.get(i)?,
+            Err(_) => v.as_object()?.get(p)?,
+        };
+    }
+    Some(v)
+}
+
+fn source(c: &Value, text: &str) -> (String, Vec<String>) {
+    let wl = if c["wl"].is_array() { toks_of(&c["wl"]).join(" ") } else { "q ::".to_string() };
+    let wr = toks_of(&c["wr"]).join(" ");
+    let path = if c["path"].is_array() { toks_of(&c["path"]) } else { vec!["e".to_string()] };
+    (format!("{} {} {}\n", wl, text, wr), path)
+}
+
 #[cfg(feature = "lua")]
-fn eval(text: &str) -> Value {
+fn eval(c: &Value, text: &str) -> Value {
     use vharness::luarun::{self, Status};
-    let src = format!("start :: fn do\n    print({})\nend\n", text);
+    let src = if c["epre"].is_array() {
+        format!("{} {} {}\n", toks_of(&c["epre"]).join(" "), text, toks_of(&c["epost"]).join(" "))
+    } else {
+        format!("start :: fn do\n    print({})\nend\n", text)
+    };
     match vharness::project::compile_src(&src) {
         vharness::CompileResult::Ok { lua } => {
+            let lua = if std::env::var("C13_STUB").ok().as_deref() == Some("comment") {
+                let body_at = vharness::project::prelude_len(&lua);
+                format!("{}{}", &lua[..body_at], lua[body_at..].replace("(-(-", "(--").replace("(- -", "(--"))
+            } else {
+                lua
+            };
             let obs = luarun::run(&lua);
             match obs.status {
                 Status::Done => json!({"status":"done","prints":obs.prints}),
                 Status::AssertFailed => json!({"status":"assert_failed","prints":obs.prints}),
-                s => json!({"status":s.short(),"detail":format!("{:?}", s)}),
+                s => json!({"status":s.short(),"detail":format!("{:?}", s).chars().take(300).collect::<String>()}),
             }
         }
         other => json!({"status":"rejected","detail":format!("{:?}", other).chars().take(300).collect::<String>()}),
@@ -69,39 +138,79 @@ fn expected_eval(val: &Value) -> Value {
         "assert_failed" => json!({"status":"assert_failed","prints":[]}),
         "int" => json!({"status":"done","prints":[format!("{}", val["v"].as_i64().unwrap())]}),
         "bool" => json!({"status":"done","prints":[format!("{}", val["v"].as_bool().unwrap())]}),
+        "show" => json!({"status":"done","prints":[val["s"].as_str().unwrap()]}),
         _ => Value::Null,
+    }
+}
+
+fn probe(file: &str) {
+    let src = std::fs::read_to_string(file).unwrap_or_else(|e| tool_error(&format!("{}: {}", file, e)));
+    match parse_module(&src) {
+        Ok(stmts) => stmts.iter().for_each(|s| println!("{}", s)),
+        Err(e) => println!("{}", e),
+    }
+    #[cfg(feature = "lua")]
+    match vharness::project::compile_src(&src) {
+        vharness::CompileResult::Ok { lua } => {
+            let obs = vharness::luarun::run(&lua);
+            println!("status={:?} prints={:?}", obs.status, obs.prints);
+            if std::env::var("C13_LUA").is_ok() {
+                println!("{}", vharness::project::body_of(&lua));
+            }
+        }
+        other => println!("{}", format!("{:?}", other).chars().take(600).collect::<String>()),
     }
 }
 
 fn main() {
     let args: Vec<String> = std::env::args().collect();
+    if args.len() >= 3 && args[1] == "probe" {
+        vharness::project::quiet_panics();
+        probe(&args[2]);
+        return;
+    }
     if args.len() < 4 || args[1] != "replay" {
-        tool_error("usage: c13 replay <cases> <results>");
+        tool_error("usage: c13 replay <cases> <results> | c13 probe <file.sy>");
     }
     let cases: Vec<Value> = read_ndjson(Path::new(&args[2]));
+    vharness::project::quiet_panics();
     let results = vharness::pool::par_map(&cases, |i, c| {
         let mut checks = Vec::new();
+        let mut dumps: Vec<Option<Vec<Value>>> = Vec::new();
+        let run = c["ev"].as_bool().unwrap_or(c["u"] == "typed");
         for form in ["min", "full"] {
             let text = text_of(&c[form]);
-            match parse_expr(&text) {
-                Ok(tree) => {
-                    let ok = tree == c["t"];
+            let (src, path) = source(c, &text);
+            match parse_module(&src) {
+                Ok(stmts) => {
+                    let got = stmts.first().and_then(|s| walk(s, &path)).cloned().unwrap_or(Value::Null);
+                    let ok = got == c["t"];
                     checks.push(json!({"what":format!("parse-{}", form),"ok":ok,"text":text,
-                                       "got": if ok { Value::Null } else { tree }}));
+                                       "got": if ok { Value::Null } else { got }}));
+                    dumps.push(Some(stmts));
                 }
-                Err(e) => checks.push(json!({"what":format!("parse-{}", form),"ok":false,"text":text,"got":e})),
+                Err(e) => {
+                    checks.push(json!({"what":format!("parse-{}", form),"ok":false,"text":text,"got":e}));
+                    dumps.push(None);
+                }
             }
             #[cfg(feature = "lua")]
-            if c["u"] == "typed" {
+            if run {
                 let want = expected_eval(&c["val"]);
-                let got = eval(&text);
+                let got = eval(c, &text);
                 let ok = got["status"] == want["status"]
                     && (want["status"] != "done" || got["prints"] == want["prints"]);
                 checks.push(json!({"what":format!("eval-{}", form),"ok":ok,"text":text,
                                    "got": if ok { Value::Null } else { got }, "want": want}));
             }
         }
-        let _ = expected_eval;
+        if c["whole"].as_bool().unwrap_or(false) {
+            // the text AROUND the expression must be read the same way whichever spelling of the expression stands in it
+            let ok = dumps.len() == 2 && dumps[0].is_some() && dumps[0] == dumps[1];
+            checks.push(json!({"what":"parse-same","ok":ok,"text":text_of(&c["min"]),
+                               "got": if ok { Value::Null } else { json!(dumps.get(0)) }}));
+        }
+        let _ = (expected_eval, run);
         json!({"i": i, "checks": checks})
     });
     write_ndjson(Path::new(&args[3]), &results);
